@@ -111,6 +111,35 @@ def phase_order(F, rep, rule):
     # the final value returned is the trimmed one (or the truncated/stripped one when there is no separator)
     return f
 
+def phase_guards(F, rep, rule):
+    """Each phase of sanitize_to_string runs under its own setting only: the cut whenever a max_length is set and the text is longer
+    (no further condition can excuse a needed cut), zero stripping whenever zeros are not kept (with or without a separator)."""
+    fs = [f for p, f in san_fns(F).items() if p.endswith("Sanitizer::sanitize_to_string")]
+    if not fs: return
+    f = mir.inlined(F, fs[0], keep=("replace_non_alphanumeric", "remove_leading_zeros", "remove_leading_zeros_from_segment"))
+    def field_of(d):
+        return {e[2] for o in (mir.trace_place(f, d[1]) if d[0] == "discr" else []) for e in o.path if not isinstance(e, str) and e[0] == "f"} | ({e[2] for e in d[1][1:] if not isinstance(e, str) and e[0] == "f"} if d[0] in ("discr", "place") and isinstance(d[1], list) else set())
+    ncut = nstrip = 0
+    for bi, t in f.calls():
+        c = mir.callee(t) or ""
+        site = "%s bb%d line %s" % (f.where(), bi, f.blocks[bi]["line"])
+        if c.endswith("String::truncate"):
+            ncut += 1
+            extra = []
+            for d, pol, dd in mir.guards_of(f, bi):
+                if d[0] == "discr": continue
+                if d[0] == "place" and "max_length" in field_of(d): continue
+                extra.append(str(d[1]).rsplit("::", 1)[-1] if d[0] == "call" else str(d[1]))
+            if extra: rep.bad(rule, "cut-under-extra-condition", "the cut to max_length is made only when %s also holds: a text that is longer than max_length after lower-casing / replacing (U+0130 lower-cases to two characters) is returned uncut" % extra, site)
+            else: rep.ok(rule, "the cut depends only on max_length being set and the text being longer", sample=site, nontrivial_key="cutguard%d" % bi)
+        if c.endswith("Sanitizer::remove_leading_zeros") or c.endswith("Sanitizer::remove_leading_zeros_from_segment"):
+            nstrip += 1
+            sep_guard = [d for d, pol, dd in mir.guards_of(f, bi) if d[0] == "discr" and "separator" in field_of(d) and isinstance(pol, tuple) and pol[0] == "in" and set(pol[1]) == {"Some"}]
+            other = [b2 for b2, t2 in f.calls() if b2 != bi and ((mir.callee(t2) or "").endswith("Sanitizer::remove_leading_zeros") or (mir.callee(t2) or "").endswith("Sanitizer::remove_leading_zeros_from_segment"))]
+            if sep_guard and not other: rep.bad(rule, "strip-needs-separator", "leading zeros are stripped only when a separator is set: with `separator: none` an all-digit result keeps them (\"007\" stays \"007\")", site)
+            else: rep.ok(rule, "zero stripping does not depend on a separator being set", sample=site, nontrivial_key="stripguard%d" % bi)
+    rep.floor(rule, "cut / zero-strip sites in sanitize_to_string", ncut + nstrip, 2)
+
 def integer_sanitiser(F, rep, rule):
     fs = [f for p, f in san_fns(F).items() if p.endswith("Sanitizer::sanitize_to_integer")]
     if not rep.anchor(rule, "Sanitizer::sanitize_to_integer", fs): return
